@@ -4,6 +4,6 @@ tier=${1:-quick}
 cap=1500; [ "$tier" = thorough ] && cap=11000
 for p in $(python3 -c "import json;print(' '.join(c['property_id'] for c in json.load(open('/verif/MANIFEST.json'))['checks']))"); do
   out=$(timeout $cap /verif/bin/gosx check -prop $p -tier $tier 2>&1); rc=$?
-  echo "$out" | tail -1 | cut -c1-260
+  echo "$out" | tail -1 | cut -c1-400
   [ $rc -ne 0 ] && echo "$out" | grep -v "^C[0-9][0-9] " | head -8 | cut -c1-300
 done
